@@ -20,6 +20,7 @@ EXPLANATION = (
     "a handler catching at least Exception whose every exit continues the loop; the reader is the target of "
     "the one thread created and started in startService before the writer is registered."
     "  The queue is created per instance: neither a class attribute nor a parameter default evaluated at definition time."
+    '  __call__ is decided on its flow graph (exactly one put(<message>) on every path); reader threads are created and started by startService only.'
 )
 RULE = ("obligation = rule instance bound to a loop exit / queue operation / call site of ThreadedWriter; "
         "non-trivial = CFG paths examined")
